@@ -8,7 +8,7 @@ flattening passes as reserved arguments.  Substitution semantics of bodies is NO
 """
 import ast
 
-from ..model import AnalysisError, src, callee_name, dotted, walk_local, calls_in, FUNC, names_in
+from ..model import AnalysisError, src, callee_name, dotted, walk_local, calls_in, FUNC, names_in, pos
 from ..flow import Sem, path_conditions, split_conj
 from ..callgraph import CallGraph
 from ..common import resolve_single_assign, ancestors, in_loop
@@ -167,7 +167,7 @@ def _check_eval_fn(ctx, repo):
     if not isinstance(frame, ast.Name):
         return
     fv = frame.id
-    pline = (push.lineno, push.col_offset)
+    pline = pos(push)
     # the statements of the pushed region: the try whose finally pops
     body_var = None
     for n in walk_local(f.node):
@@ -177,10 +177,10 @@ def _check_eval_fn(ctx, repo):
     ctx.ob("C03-R3", f.fq, ".f is stored in the frame dictionary before the push", body_var is not None, node=push, construct=".f stored in frame",
            msg="the function is not bound to .f in the frame that is pushed: recursion through .f breaks")
     for n in walk_local(f.node):
-        pos = (getattr(n, "lineno", 0), getattr(n, "col_offset", 0))
+        npos = pos(n)
         # stores into the frame after the push
         if isinstance(n, ast.Subscript) and isinstance(n.ctx, (ast.Store, ast.Del)) and isinstance(n.value, ast.Name) and n.value.id == fv:
-            ctx.ob("C03-R3", f.fq, f"store into the frame `{src(n)}` precedes the push", pos < pline, node=n, construct=f"frame store {src(n.slice)}",
+            ctx.ob("C03-R3", f.fq, f"store into the frame `{src(n)}` precedes the push", npos < pline, node=n, construct=f"frame store {src(n.slice)}",
                    msg="the frame is modified after it became visible: evaluation of the value can see a half-built frame")
         # write-through to the context while building the frame
         if isinstance(n, ast.Subscript) and isinstance(n.ctx, (ast.Store, ast.Del)) and dotted(n.value) in CTX_RECV:
@@ -188,7 +188,7 @@ def _check_eval_fn(ctx, repo):
                    msg="a parameter/local is written through the context stack instead of into the new frame: it lands in (and survives in) an outer scope")
         # evaluations after the push: only the body
         if isinstance(n, ast.Call) and isinstance(n.func, ast.Attribute) and n.func.attr in ("call", "eval") and dotted(n.func.value) == "self":
-            if pos > pline:
+            if npos > pline:
                 a0 = n.args[0] if n.args else None
                 ctx.ob("C03-R3", f.fq, "the only evaluation after the push is that of the function body", isinstance(a0, ast.Name) and a0.id == body_var,
                        node=n, construct=f"evaluation after push: {src(n)[:60]}", msg="an argument expression is evaluated after the callee frame was pushed: it sees the callee's x/y/z instead of the caller's")
